@@ -849,6 +849,13 @@ func contextOf(req *ir.Request, full string, diff string) string {
 	}
 	if len(parts) > 0 {
 		for _, f := range m.Fields {
+			if f.JSON() == parts[0] && f.Kind == "enum" {
+				// an enum field of the parent itself: the enum annotations never reach the wire
+				if f.Ann.EnumEnc == "NUMBER" {
+					return "enumnum@top"
+				}
+				return "enumval@top"
+			}
 			if f.JSON() == parts[0] {
 				cm, _ := req.FindMessage(f.TypeName)
 				ctx := "child"
